@@ -159,8 +159,14 @@ def run(ctx):
     slice_names = {"form_name", "default_language", "id_string", "sms_keyword", "json_dict"}
     loop = _row_loop(w2j)
     stmts = []
+    # (positions in the body, not line numbers: statements expanded from an extracted helper keep the helper's own lines)
+    top_index = {}
+    for i_, st_ in enumerate(w2j.node.body):
+        for x_ in ast.walk(st_):
+            top_index[id(x_)] = i_
+    loop_i = top_index.get(id(loop), len(w2j.node.body))
     for st in w2j.node.body:
-        if st.lineno >= loop.lineno:
+        if top_index.get(id(st), 0) >= loop_i:
             break
         tg = None
         if isinstance(st, ast.Assign) and isinstance(st.targets[0], ast.Name):
@@ -172,7 +178,7 @@ def run(ctx):
     # writer census: nothing else (nested) assigns the slice names before the loop
     other = []
     for x in walk_own(w2j.node):
-        if isinstance(x, ast.Assign) and x.lineno < loop.lineno and x not in stmts:
+        if isinstance(x, ast.Assign) and top_index.get(id(x), loop_i) < loop_i and x not in stmts:
             for t in x.targets:
                 if isinstance(t, ast.Name) and t.id in slice_names:
                     other.append(x)
@@ -246,8 +252,23 @@ def run(ctx):
     # ------------------------------------------------------------------ R5
     r5 = Rule("C11", "C11.R5", "meta block: instanceID / instanceName / omit_instanceID", floor=8,
               necessary="a missing instanceID (or one that cannot be omitted), or an instanceName with another calculation")
-    after = [st for st in w2j.node.body if st.lineno > loop.end_lineno]
+    body_ = w2j.node.body
+    li_ = next((i_ for i_, st_ in enumerate(body_) if st_ is loop), None)
+    # (by position in the body, not by line number: statements expanded from an extracted helper keep the helper's lines)
+    after = body_[li_ + 1:] if li_ is not None else [st for st in body_ if st.lineno > loop.end_lineno]
     first_meta = next((i for i, st in enumerate(after) if any(w in norm(st) for w in ("omit_instanceID", "instance_name", "meta_children"))), None)
+    # ... together with the earlier statements (after the row loop) that define what those statements read and the
+    # evaluation's environment does not provide (argument bindings of an extracted helper, hoisted locals)
+    if first_meta is not None:
+        import builtins as _bi
+        from ..rowloop import _free_names
+        provided_ = {"settings", "meta_children", "entity_declaration", "json_dict", "stack"}
+        for _ in range(8):
+            need_ = {n_ for n_ in _free_names(after[first_meta:], w2j.module) if n_ not in provided_ and not hasattr(_bi, n_) and repo.resolve_name(w2j.module, n_) is None}
+            idx_ = [i_ for i_, st_ in enumerate(after[:first_meta]) if need_ & {x_.id for x_ in ast.walk(st_) if isinstance(x_, ast.Name) and isinstance(x_.ctx, ast.Store)}]
+            if not idx_:
+                break
+            first_meta = min(idx_)
     tail = after[first_meta:] if first_meta is not None else []
     r5.check(len(tail) >= 2 and isinstance(tail[-1], ast.Return), "workbook_to_json:meta slice", "the statements that assemble the meta block (through the final return) were found", w2j.loc(),
              why_fail=f"{[norm(t)[:40] for t in tail]}")
